@@ -183,6 +183,13 @@ def grid_corpus(seed, n):
         grid = np.concatenate([[0.0], np.sort(rng.uniform(0.01, horizon, size=int(rng.randint(2, 9))))])
         out.append(dict(spec=spec, x0=x0.tolist(), lims=lims, theta=theta.tolist(), grid=[float(v) for v in grid],
                         grid_type=('array', 'list', 'tuple')[k % 3], seed=int(rng.randint(1, 2 ** 31 - 1))))
+    # a busy path: a large closed epidemic on a coarse grid, hundreds of firings of one transition inside one interval (counts that
+    # only fit a wide integer)
+    N = int(rng.randint(500, 900))
+    busy = {'states': ['S', 'I', 'R'], 'state_decl': ['S', 'I', 'R'], 'params': ['p0', 'p1'],
+            'events': [('p0*S*I/%d' % N, [('T', 'S', 'I', '1')]), ('p1*I', [('T', 'I', 'R', '1')])], 'odes': [], 'derived': []}
+    out.insert(1, dict(spec=busy, x0=[float(N - 10), 10.0, 0.0], lims=[None, None, None], theta=[float(rng.uniform(0.8, 1.2)), float(rng.uniform(0.2, 0.4))],
+                       grid=[0.0, 8.0, 16.0, 40.0], grid_type='array', seed=int(rng.randint(1, 2 ** 31 - 1))))
     return out
 
 
